@@ -2,9 +2,9 @@ package c12
 
 import (
 	"bytes"
-	"encoding/binary"
 	"crypto/hmac"
 	"crypto/sha256"
+	"encoding/binary"
 	"encoding/hex"
 	"encoding/json"
 	"fmt"
@@ -65,6 +65,11 @@ type Cross struct {
 	FailKinds    []string `json:",omitempty"`
 	ClientFail   bool     `json:",omitempty"`
 	FailUnsigned bool     `json:",omitempty"`
+	// Round 9 (see fill_test.go). Fill: "" | request | reply | both - requests are padded to EXACTLY the
+	// server's receive buffer (Server.UDPSize, 512 when 0), replies to EXACTLY the clients' receive
+	// buffer (Conn.UDPSize = ClientUDPSize, 0 = 1232 as in every earlier round).
+	Fill          string `json:",omitempty"`
+	ClientUDPSize int    `json:",omitempty"`
 }
 
 func genCross(transports []string) func(t *rapid.T) Cross {
@@ -123,6 +128,12 @@ func genCross(transports []string) func(t *rapid.T) Cross {
 			if c.Tsig && !c.FailUnsigned && pbt.Known(knownFailedSignedWrite) {
 				pbt.Excluded(knownFailedSignedWrite)
 				c.FailUnsigned = true
+			}
+		}
+		if rapid.IntRange(0, 9).Draw(t, "fill") < 3 {
+			c.Fill = rapid.SampledFrom([]string{"request", "reply", "both", "both"}).Draw(t, "fillSide")
+			if c.fillsReplies() {
+				c.ClientUDPSize = rapid.SampledFrom([]int{0, 0, 512, 4096}).Draw(t, "clientUDPSize")
 			}
 		}
 		return c
@@ -333,6 +344,7 @@ type crossState struct {
 	multi        bool           // realUDPwild: several local addresses are usable
 	idle         bool           // the round starts with a silence of several read time-outs
 	grown        bool           // second round: requests larger than the first lifetime's receive buffer
+	fillTarget   int            // > 0: the requests of the current round are padded to exactly this many octets
 	addrs        map[int]string // client index -> its local address, as the server must see it
 	srvLocal     string         // the address the server listens on
 	asyncPending atomic.Int32   // late repliers still at work (an atomic, not a WaitGroup: Add would race with Wait across a real socket)
@@ -340,6 +352,9 @@ type crossState struct {
 	tsigOK       atomic.Int32
 	failedReply  atomic.Int32 // replies that could not be encoded, each followed by the valid one
 	failedReq    atomic.Int32 // the same for requests
+	filledReq    atomic.Int32 // requests of exactly the server's receive buffer size
+	filledReply  atomic.Int32 // replies of exactly the client's receive buffer size
+	filledSeen   atomic.Int32 // ... that a recording client saw arrive with exactly that many octets
 	wireChecked  atomic.Int32 // replies compared octet-wise through the harness's own decoder
 	alien        atomic.Int32
 	calls        atomic.Int32
@@ -484,6 +499,9 @@ func (s *crossState) handler(w dns.ResponseWriter, req *dns.Msg) {
 		if s.c.Tsig {
 			m.SetTsig(tsigKeyName, dns.HmacSHA256, 300, time.Now().Unix())
 		}
+		if s.c.fillsReplies() && s.datagram() && s.fillReplyTo(m, s.c.clientBuf()) {
+			s.filledReply.Add(1) // this reply fills its client's receive buffer to the last octet
+		}
 		if err := w.WriteMsg(m); err != nil {
 			s.fail("handler of token %q could not write its reply: %v", qn, err)
 		}
@@ -552,6 +570,15 @@ func checkCross(c Cross) error {
 	}
 	if s.wireChecked.Load() > 0 {
 		cl = append(cl, "replies-decoded-by-the-harness")
+	}
+	if s.filledReq.Load() > 0 {
+		cl = append(cl, "requests-of-exactly-the-server-buffer-size", fmt.Sprintf("requests-of-exactly-the-server-buffer-size=%d", c.bufSize(0)))
+	}
+	if s.filledReply.Load() > 0 {
+		cl = append(cl, "replies-of-exactly-the-client-buffer-size", fmt.Sprintf("replies-of-exactly-the-client-buffer-size=%d", c.clientBuf()))
+	}
+	if s.filledSeen.Load() > 0 {
+		cl = append(cl, "observed:reply-datagram-of-exactly-the-client-buffer-size-arrived")
 	}
 	inflight := s.maxAct.Load() >= 2
 	if inflight {
@@ -623,6 +650,21 @@ func (s *crossState) run() (lost int, err error) {
 			pad = max(pad, s.padFor(target))
 			if c.datagramTransport() && target > c.bufSize(0) {
 				s.grown = true
+			}
+		}
+		s.fillTarget = 0
+		if c.fillsRequests() && c.datagramTransport() {
+			// every request of this round is exactly as long as the buffer it is received into (after a
+			// restart: as the padding rule of the restart rounds allows)
+			s.fillTarget = c.bufSize(0)
+			if ph > 0 {
+				s.fillTarget = min(c.bufSize(0), c.bufSize(1))
+				if c.Big2 {
+					s.fillTarget = c.bufSize(1)
+				}
+				if s.fillTarget > c.bufSize(0) {
+					s.grown = true
+				}
 			}
 		}
 		l, e := s.round(srv, ph, pad)
@@ -763,7 +805,7 @@ func (s *crossState) round(srv *dns.Server, ph, pad int) (lost int, err error) {
 			if cl%2 == 1 {
 				conn, tee = newTee(conn) // this client's replies are also read off the wire by the harness
 			}
-			co := &dns.Conn{Conn: conn, UDPSize: 1232}
+			co := &dns.Conn{Conn: conn, UDPSize: uint16(c.clientBuf())}
 			if c.Tsig {
 				if c.TsigProv {
 					co.TsigProvider = hmacProvider("provider secret")
@@ -774,6 +816,12 @@ func (s *crossState) round(srv *dns.Server, ph, pad int) (lost int, err error) {
 			<-gate
 			for q := c.Reqs*ph + 1; q <= c.Reqs*(ph+1); q++ {
 				m := s.request(cl, q, pad)
+				if s.fillTarget > 0 {
+					if f := s.fillRequest(cl, q, s.fillTarget); f != nil {
+						m = f
+						s.filledReq.Add(1)
+					}
+				}
 				tok := s.token(cl, q)
 				tmo := hangLimit
 				if udpReal {
@@ -800,6 +848,12 @@ func (s *crossState) round(srv *dns.Server, ph, pad int) (lost int, err error) {
 					tee.got = nil
 				}
 				if e := co.WriteMsg(m); e != nil {
+					if udpReal && isTimeout(e) {
+						// the machine kept this goroutine off the processor for longer than the time-out
+						// between SetDeadline and the write: the request never left, like a lost datagram
+						lostN.Add(1)
+						return
+					}
 					s.fail("%sclient %d request %d: write failed: %v", when, cl, q, e)
 					return
 				}
@@ -852,6 +906,9 @@ func (s *crossState) round(srv *dns.Server, ph, pad int) (lost int, err error) {
 					if e != nil {
 						s.fail("%sclient %d request %d (token %s; compress=%v, unencodable reply first: %v): the reply on the wire cannot be read: %v (%s)", when, cl, q, tok, c.Compress, c.handlerFails(cl, q), e, hexHead(raw))
 						return
+					}
+					if s.datagram() && c.fillsReplies() && len(raw) == c.clientBuf() {
+						s.filledSeen.Add(1)
 					}
 					if len(raw) < 2 || binary.BigEndian.Uint16(raw) != m.Id {
 						s.fail("%sclient %d request %d (token %s): the reply on the wire carries ID %d, the request %d", when, cl, q, tok, binary.BigEndian.Uint16(raw), m.Id)
